@@ -332,6 +332,16 @@ pub fn run(ctx: &Ctx) -> i32 {
                                 if let Some(i) = (0..gr.dim).find(|&i| x[i].to_bits() != base[i].to_bits()) {
                                     if outcome_bits(&out) != base_bits {
                                         influenced[i] = true;
+                                    } else if i < gr.nf && !influenced[i] {
+                                        // a Feynman-group coordinate whose parameter is absorbed by rounding (hierarchies of 1e-40
+                                        // between parameters are ordinary): the influence is then visible in the parameter itself
+                                        let a = r.sampler.sample_logged(x, &r.ed, &Settings::FULL).1.x_unrescaled;
+                                        let b = r.sampler.sample_logged(base, &r.ed, &Settings::FULL).1.x_unrescaled;
+                                        let bitsv = |v: &Option<Vec<f64>>| v.as_ref().map(|v| v.iter().map(|f| f.to_bits()).collect::<Vec<_>>());
+                                        if a.is_some() && bitsv(&a) != bitsv(&b) {
+                                            influenced[i] = true;
+                                            acc.inc("influence_seen_only_in_parameters(absorbed by rounding)");
+                                        }
                                     }
                                 }
                             }
